@@ -974,10 +974,13 @@ impl Translator {
                     self.translate_declaration(decl, field_name.node(), offset_table, mono, st);
                 } else {
                     let expr_ty = self.get_ty(mono, expr.node()).unwrap();
+                    self.translate_expr(accessed, offset_table, mono, st);
                     if expr_ty != SolvedType::Void {
-                        self.translate_expr(accessed, offset_table, mono, st);
                         let idx = self.idx_of_field(&self.statics, mono, accessed, &field_name.v);
                         self.emit(st, Instr::GetField(idx, Reg::Top));
+                    } else {
+                        // a void field has no slot: only the receiver's evaluation remains
+                        self.emit(st, Instr::Pop);
                     }
                 }
             }
@@ -2257,25 +2260,29 @@ impl Translator {
                 let rvalue_ty = self.get_ty(mono, rvalue.node()).unwrap();
                 match assign_op {
                     AssignOperator::Equal => {
-                        if rvalue_ty != SolvedType::Void {
-                            match &*expr1.kind {
-                                // variable assignment
-                                ExprKind::Variable(_) => {
-                                    let Declaration::Var(node) =
-                                        &self.statics.resolution_map[&expr1.id]
-                                    else {
-                                        panic!("expected variableto be defined in node");
-                                    };
+                        // a void value is not stored anywhere, but both sides are still evaluated
+                        let stores_value = rvalue_ty != SolvedType::Void;
+                        match &*expr1.kind {
+                            // variable assignment
+                            ExprKind::Variable(_) => {
+                                let Declaration::Var(node) =
+                                    &self.statics.resolution_map[&expr1.id]
+                                else {
+                                    panic!("expected variableto be defined in node");
+                                };
+                                self.translate_expr(rvalue, offset_table, mono, st);
+                                if stores_value {
                                     let idx = offset_table.get(&node.id()).unwrap();
-                                    self.translate_expr(rvalue, offset_table, mono, st);
                                     self.emit(st, Instr::StoreOffset(*idx));
                                 }
-                                // struct member assignment
-                                ExprKind::MemberAccess(accessed, field_name) => {
-                                    // TODO: if member function is being assigned to, that should be disallowed earlier by the compiler
-                                    // for instance, Person.fullname = (p: Person) -> "hello world". Should not be allowed.
-                                    self.translate_expr(rvalue, offset_table, mono, st);
-                                    self.translate_expr(accessed, offset_table, mono, st);
+                            }
+                            // struct member assignment
+                            ExprKind::MemberAccess(accessed, field_name) => {
+                                // TODO: if member function is being assigned to, that should be disallowed earlier by the compiler
+                                // for instance, Person.fullname = (p: Person) -> "hello world". Should not be allowed.
+                                self.translate_expr(rvalue, offset_table, mono, st);
+                                self.translate_expr(accessed, offset_table, mono, st);
+                                if stores_value {
                                     let idx = self.idx_of_field(
                                         &self.statics,
                                         mono,
@@ -2283,42 +2290,49 @@ impl Translator {
                                         &field_name.v,
                                     );
                                     self.emit(st, Instr::SetField(idx, Reg::Top));
+                                } else {
+                                    // a void field has no slot
+                                    self.emit(st, Instr::Pop);
                                 }
-                                // array assignment
-                                ExprKind::IndexAccess(array, index) => {
-                                    let lhs_ty = self.get_ty(mono, array.node()).unwrap();
-                                    match lhs_ty {
-                                        SolvedType::Nominal(Nominal::Array, _) => {
-                                            // shortcut, just inline the array access code
-                                            self.translate_expr(array, offset_table, mono, st);
-                                            self.translate_expr(index, offset_table, mono, st);
-                                            self.translate_expr(rvalue, offset_table, mono, st);
-                                            self.emit(st, Instr::SetIndex(Reg::Top, Reg::Top));
+                            }
+                            // array assignment
+                            ExprKind::IndexAccess(array, index) => {
+                                let lhs_ty = self.get_ty(mono, array.node()).unwrap();
+                                match lhs_ty {
+                                    SolvedType::Nominal(Nominal::Array, _) => {
+                                        // shortcut, just inline the array access code
+                                        self.translate_expr(array, offset_table, mono, st);
+                                        self.translate_expr(index, offset_table, mono, st);
+                                        self.translate_expr(rvalue, offset_table, mono, st);
+                                        if !stores_value {
+                                            // arrays of void use dummy values
+                                            self.emit(st, Instr::PushNil(1));
                                         }
-                                        _ => {
-                                            // interface method Index::index_set()
-                                            self.translate_expr(array, offset_table, mono, st);
-                                            self.translate_expr(index, offset_table, mono, st);
-                                            self.translate_expr(rvalue, offset_table, mono, st);
+                                        self.emit(st, Instr::SetIndex(Reg::Top, Reg::Top));
+                                    }
+                                    _ => {
+                                        // interface method Index::index_set()
+                                        self.translate_expr(array, offset_table, mono, st);
+                                        self.translate_expr(index, offset_table, mono, st);
+                                        self.translate_expr(rvalue, offset_table, mono, st);
 
-                                            let index_iface_decl =
-                                                self.statics.get_iface_decl("prelude.Index");
-                                            let fn_index_set_ty = self.statics.index_set_types
-                                                [&stmt.id]
-                                                .solution()
-                                                .unwrap();
-                                            self.translate_iface_method_call_helper(
-                                                st,
-                                                mono,
-                                                &index_iface_decl,
-                                                1,
-                                                &fn_index_set_ty,
-                                            );
-                                        }
+                                        let index_iface_decl =
+                                            self.statics.get_iface_decl("prelude.Index");
+                                        let fn_index_set_ty = self.statics.index_set_types
+                                            [&stmt.id]
+                                            .solution()
+                                            .unwrap();
+                                        self.translate_iface_method_call_helper(
+                                            st,
+                                            mono,
+                                            &index_iface_decl,
+                                            1,
+                                            &fn_index_set_ty,
+                                        );
                                     }
                                 }
-                                _ => unreachable!(),
                             }
+                            _ => unreachable!(),
                         }
                     }
                     AssignOperator::PlusEq
